@@ -1285,6 +1285,7 @@ public:
         v.push_back(value_type("EC.m_sourceTreeResultTreeFactory", m_sourceTreeResultTreeFactory.get() != 0 ? 1L : 0L));
         m_variablesStack.verifSizes(v);
         m_xpathExecutionContextDefault.verifSizes(v);
+        m_nodeSorter.verifSizes(v);
     }
 private:
 #endif
